@@ -15,6 +15,7 @@ import OtpVerif.Model.Url
 import OtpVerif.Model.Rest
 import OtpVerif.Model.Wasm
 import OtpVerif.Spec.All
+import OtpVerif.Spec.Random
 
 open OtpVerif OtpVerif.Model
 
@@ -294,6 +295,26 @@ def step (line : String) : String :=
         | .err e => "gen-err " ++ e.name
         | .panic => "panic") (Spec.Run.gvtotp O s t1 t2 p)
     | _, _, _, _ => "bad-op"
+  | ["rndseq", as, stream, _chunk, par] =>
+    -- a history of calls against one source: the model reads consecutive segments (concurrent histories have no
+    -- single model answer: they are judged by `rndjudge` only)
+    match unhex stream, (as.splitOn ",").mapM String.toNat? with
+    | some st, some al =>
+      if par != "1" then "unsupported" else
+      let (rs, rest) := al.foldl (fun (acc : List String × Bytes) a =>
+        let (r, rest) := randomSecret a acc.2
+        ((match r with | .ok t => hex t | _ => "err") :: acc.1, rest)) ([], st)
+      s!"ok {" ".intercalate rs.reverse} consumed={st.length - rest.length}"
+    | _, _ => "bad-op"
+  | ["rndjudge", stream, limit, outs] =>
+    -- property-level verdict on what the implementation answered: outs = "a:hex|err,…"
+    match unhex stream, limit.toNat?, (outs.splitOn ",").mapM (fun (o : String) =>
+        match o.splitOn ":" with
+        | [a, "err"] => a.toNat?.map (fun a => (a, (none : Option Bytes)))
+        | [a, h] => (match a.toNat?, unhex h with | some a, some t => some (a, some t) | _, _ => none)
+        | _ => none) with
+    | some st, some lim, some os => Spec.judgeRandom st lim os
+    | _, _, _ => "bad-op"
   | ["rndpar", a, stream, n] =>
     -- n concurrent calls: the multiset of results is the encodings of n consecutive segments
     match a.toNat?, unhex stream, n.toNat? with
@@ -301,13 +322,7 @@ def step (line : String) : String :=
       let (rs, _) := (List.range n).foldl (fun (acc : List String × Bytes) _ =>
         let (r, rest) := randomSecret a acc.2
         (showOut r :: acc.1, rest)) ([], st)
-      let specs : List String :=
-        if a ≥ 3 then List.replicate n "err"
-        else
-          let sz := if a = 0 then 20 else if a = 1 then 32 else 64
-          (List.range n).map (fun j => "ok " ++ Spec.Run.hex (Spec.b32NoPad ((st.drop (j * sz)).take sz)))
-      withSpec (" ".intercalate (rs.toArray.qsort (· < ·)).toList)
-        (if st.length < n * 64 then none else some (" ".intercalate (specs.toArray.qsort (· < ·)).toList))
+      withSpec (" ".intercalate (rs.toArray.qsort (· < ·)).toList) none
     | _, _, _ => "bad-op"
   | ["gocra", s, suite, inp] =>
     match unhex s, parseSuite suite, parseInput inp with
@@ -360,7 +375,8 @@ def step (line : String) : String :=
     match a.toNat?, unhex stream with
     | some a, some st =>
       let (r, rest) := randomSecret a st
-      withSpec s!"{showOut r} consumed={st.length - rest.length}" (Spec.Run.rnd a st)
+      -- no per-call Spec answer: the property-level verdict is `rndjudge` (Spec.judgeRandom) on the implementation's answer
+      withSpec s!"{showOut r} consumed={st.length - rest.length}" none
     | _, _ => "bad-op"
   | ["trunc", sum, m] =>
     match unhex sum, m.toNat? with
